@@ -1049,6 +1049,9 @@ def run(ctx, col: Collector):
                 m += 1
                 col.obs.append(type(o)(col.prop, 'C01-resolve', o.construct, o.status, o.msg, o.file, o.line, o.extra))
         col.floor('C01-resolve', 'endpoint order obligations', m, 2)
+        # the endpoint names are the names written: the builder must not make several names out of one quoted name (rule shared with C08-precondition)
+        from .c08 import split_of_quoted_name
+        split_of_quoted_name(ctx, col, gm, 'C01-resolve', 'reference-endpoint')
     guarded(col, 'C01-enum', 'enum-types', enum_types)
 
     # ---------------------------------------------------------------- C01-sides
